@@ -121,7 +121,7 @@ fn main() {
             tr.emit(json!({"e":"loc","off":off,"ln":ln,"col":col,"expr":expr,"found":found,"rs":rs,"re":re,
                            "val":val,"val2":val2,"ao":ao,"ap":ap}));
             n += 1;
-            if (off as i64 == tok.s || off as i64 == tok.e - 1) && r.chance(1, 3) && sample_offs.len() < 10 {
+            if (off as i64 == tok.s || off as i64 == tok.e - 1) && r.chance(1, 3) && sample_offs.len() < 6 {
                 sample_offs.push(json!({"off":off,"ln":ln,"col":col}));
             }
         }
